@@ -4,6 +4,6 @@ cd "$(dirname "$0")" || exit 1
 export GOFLAGS=-mod=mod GOPROXY=off GOSUMDB=off GOTOOLCHAIN=local CGO_ENABLED=1
 mkdir -p .build evidence
 cp -f /repo/go.sum go.sum
-go build -tags verif -o .build/vw ./cmd/vw || exit 1
-go build -tags verif -race -o .build/vw-race ./cmd/vw || exit 1
+go build -tags "verif pC20" -o .build/vw ./cmd/vw || exit 1
+go build -tags "verif pC20" -race -o .build/vw-race ./cmd/vw || exit 1
 echo setup ok
